@@ -4,22 +4,28 @@
    the cipher primitives directly; positions beyond the table yield "?". *)
 Definition eqb_strs : list string -> list string -> bool := eqb_list String.eqb.
 Definition det_case : Type :=
-  list string * (nat * nat * (string -> bool)) * list (dop string) * list (nat * list string) * list string * bool.
+  coin * list string * (nat * nat * (string -> bool)) * list (dop string) * list (nat * list string) * list string * bool.
+(* the wallet carries its coin; entries are shown through the coin's address
+   function: the table holds the addresses in the text form of the case's coin *)
+Definition key_in (cn : coin) (c : coin) (k : string) : string := if coin_eqb c cn then k else "?"%string.
 Definition det_model (c : det_case) : list (nat * list string) :=
-  let '(table, (gn, sn, act0), ops, _, _, _) := c in
+  let '(cn, table, (gn, sn, act0), ops, _, _, _) := c in
   let w0 := d_new nat string (step_of table) 0 gn sn act0 in
-  map (fun w => (d_last w, d_entries w)) (w0 :: d_trace nat string (step_of table) ops w0).
+  map (fun w => (d_last w, cd_entries nat string string (key_in cn) {| cd_coin := cn; cd_w := w |}))
+      (w0 :: d_trace nat string (step_of table) ops w0).
 Definition det_obs_eqb (a b : nat * list string) : bool := Nat.eqb (fst a) (fst b) && eqb_strs (snd a) (snd b).
 Definition mism_det := Eval vm_compute in
-  failing (fun c : det_case => let '(_, _, _, obs, _, _) := c in eqb_list det_obs_eqb (det_model c) obs) cases_det.
+  failing (fun c : det_case => let '(_, _, _, _, obs, _, _) := c in eqb_list det_obs_eqb (det_model c) obs) cases_det.
 Print mism_det.
 
 Definition idx_case : Type :=
-  list (list string) * nat * list (iop string) * list (iop string) * list (list (list string)) * list (list string) * bool.
+  coin * list (list string) * nat * list (iop string) * list (iop string) * list (list (list string)) * list (list string) * bool.
+Definition child_in (cn : coin) (tables : list (list string)) (c : coin) : nat -> nat -> string :=
+  if coin_eqb c cn then child_of tables else child_of [].
 Definition idx_model (c : idx_case) : list (list (list string)) :=
-  let '(tables, nchains, init_ops, ops, _, _, _) := c in
-  let w0 := i_run string (child_of tables) init_ops (repeat [] nchains) in
-  w0 :: i_trace string (child_of tables) ops w0.
+  let '(cn, tables, nchains, init_ops, ops, _, _, _) := c in
+  let w0 := cw_run string (child_in cn tables) init_ops {| cw_coin := cn; cw_chains := repeat [] nchains |} in
+  map cw_chains (w0 :: cw_trace string (child_in cn tables) ops w0).
 Definition mism_idx := Eval vm_compute in
-  failing (fun c : idx_case => let '(_, _, _, _, obs, _, _) := c in eqb_list (eqb_list eqb_strs) (idx_model c) obs) cases_idx.
+  failing (fun c : idx_case => let '(_, _, _, _, _, obs, _, _) := c in eqb_list (eqb_list eqb_strs) (idx_model c) obs) cases_idx.
 Print mism_idx.
